@@ -274,6 +274,18 @@ func c09Node(s *scen, word string, p *vx.Part, cold, shares bool) (viol [][2]str
 				p.Outcome(fmt.Sprintf("order%d:%s=>ACCEPTED", order, name))
 			} else {
 				p.Outcome(fmt.Sprintf("order%d:%s=>ctx%d:%s", order, name, rejectedBy, c07ErrClass(reason)))
+				// the way a block really arrives: it is first stored as a CANDIDATE (Core.WriteBlock writes
+				// it and looks it up through GetHeaderOrCandidateByHash, which fills the header cache) and
+				// verified afterwards; the chain that refused it directly must refuse it then too
+				hc := s.n.Sl[rejectedBy].HeaderChain()
+				st, _ := core.VRoundTrip(m, core.VZoneLoc)
+				s.n.Sl[rejectedBy].WriteBlock(st)
+				hc.GetHeaderOrCandidateByHash(st.Hash())
+				again, _ := core.VRoundTrip(m, core.VZoneLoc)
+				if verr := hc.VerifyHeader(again); verr == nil {
+					viol = append(viol, [2]string{fmt.Sprintf("deviation-accepted-once-stored-as-candidate:%s:order%d", name, order), fmt.Sprintf("word %q: a child of order %d whose %s deviates is refused by chain %d when verified directly (%v) but accepted after it was stored and looked up as a candidate block", word, order, name, rejectedBy, reason)})
+					p.Outcome(fmt.Sprintf("order%d:%s=>ACCEPTED-AS-CANDIDATE", order, name))
+				}
 			}
 		}
 	}
